@@ -106,6 +106,17 @@ private:
     {
         auto& context = ctx_manager->get(f);
 
+        if(f.value_ref)
+        {
+            // accessor refers to the enum from `valueRef`, its header is
+            // required even when field's type is a primitive one
+            const auto parsed = utils::parse_value_ref(*f.value_ref);
+            dependencies.emplace(
+                utils::get_schema_encoding_as<sbe::enumeration>(
+                    *schema, parsed.enum_name)
+                    .name);
+        }
+
         if(!utils::is_primitive_type(f.type))
         {
             const auto& enc = utils::get_schema_encoding(*schema, f.type);
